@@ -1764,7 +1764,9 @@ def pickle_roundtrip_model(P, R):
             if shape == 'list':
                 roots = [roots_abs[0], -roots_abs[1], roots_abs[-1]]
             elif shape == 'dict':
-                roots = {'f': -roots_abs[0], 'g': roots_abs[2]}
+                # (names not listed in alphabetical order)
+                roots = {'g': -roots_abs[0], 'f': roots_abs[2],
+                         'h': roots_abs[1]}
             else:
                 roots = None
             written = []
